@@ -190,7 +190,9 @@ fn build(fam: u64, ip: IpAddr, port: u16, ts: Option<TimeoutSettings>, t: &mut T
             srv.close_after = t.draw(CFG, 2) == 0;
             w.add_server(addr, Proto::Tcp, Box::new(srv));
             // connect, response head, body
-            Fam { name: "eco-http", call: call(Entry::Eco { level: 1 }), tcp: true, k: 3 }
+            // (level 3: with a host name in the extra settings; the connection still goes to the address)
+            let level = if t.draw(CFG, 2) == 0 { 1 } else { 3 };
+            Fam { name: "eco-http", call: call(Entry::Eco { level }), tcp: true, k: 3 }
         }
     }
 }
